@@ -389,6 +389,7 @@ def check_chain(res, vals, meta, prefix="C07"):
             res.checks_sim += 1 if lo == "lower_bound" else 0
             res.checks_workload += 0 if lo == "lower_bound" else 1
             a, b = max(vals[lo]), min(vals[hi])
+            res.margin(name, (a - b) / TAU)
             if a > b + TAU:
                 res.violate(f"{prefix}.ord.{name}", lower_name=lo, lower=a, upper_name=hi, upper=b, **meta)
     for name in ("nonsignaling", "npa1", "npa1ab", "npa2", "lower_bound", "classical"):
